@@ -406,7 +406,7 @@ pub fn tls13_exts_client(r: &mut Rng) -> Vec<u8> {
         l.insert(0, AExt::Sni(vec![(0, b"example.com".to_vec())]));
     }
     if r.chance(1, 3) {
-        l.push(AExt::PreSharedKey(r.bytes(40)));
+        l.push(AExt::PreSharedKey(if r.bool() { offered_psks(r) } else { r.bytes(40) }));
     }
     exts_bytes(&l)
 }
@@ -608,7 +608,9 @@ pub fn ext_variant(r: &mut Rng, sz: Sz, k: usize) -> AExt {
         13 => AExt::RecordSizeLimit(r.u16b()),
         14 => AExt::SessionTicket(opaque(r, sz.opaque)),
         15 => AExt::KeyShareOld(opaque(r, sz.opaque)),
-        16 => AExt::PreSharedKey(opaque(r, sz.opaque)),
+        // (the crate keeps this extension opaque; half of the generated contents are nevertheless what RFC 8446 4.2.11
+        // puts there: a well-formed OfferedPsks structure (ClientHello) or a 2-byte selected identity (ServerHello))
+        16 => AExt::PreSharedKey(match r.below(4) { 0 => offered_psks(r), 1 => r.bytes(2), _ => opaque(r, sz.opaque) }),
         17 => AExt::EarlyData(if r.bool() { None } else { Some(r.u32b()) }),
         18 => AExt::SupportedVersionsClient(u16_list(r, sz.list.min(127))),
         19 => AExt::SupportedVersionsServer(r.u16b()),
@@ -983,6 +985,27 @@ pub fn len_bitflips(enc: &W) -> Vec<Corruption> {
         }
     }
     out
+}
+
+/// RFC 8446 4.2.11 OfferedPsks: identities<7..2^16-1> of (opaque identity<1..2^16-1>, u32 obfuscated_ticket_age),
+/// binders<33..2^16-1> of opaque<32..255>
+pub fn offered_psks(r: &mut Rng) -> Vec<u8> {
+    let n = r.usize(1, 3);
+    let mut w = W::new();
+    w.block("identities", 2, |w| {
+        for _ in 0..n {
+            let il = *r.pick(&[1usize, 6, 16, 32, 100]);
+            w.vec16("identity", &r.bytes(il));
+            w.u32(r.u32b());
+        }
+    });
+    w.block("binders", 2, |w| {
+        for _ in 0..n {
+            let bl = *r.pick(&[32usize, 32, 48, 64]);
+            w.vec8("binder", &r.bytes(bl));
+        }
+    });
+    w.b
 }
 
 /// `n` zero bytes obtained from the allocator as untouched (lazily mapped) pages; None when the
